@@ -34,13 +34,13 @@ def hist_counts(entries, edges=HIST_EDGES):
 
 
 class FitWorld(object):
-    def __init__(self, ftype, cost, model="lin", v=0, n=5, minimizer="iminuit", dea="nonlinear", poisson_data=None, gen=None):
+    def __init__(self, ftype, cost, model="lin", v=0, n=5, minimizer="iminuit", dea="nonlinear", poisson_data=None, gen=None, yscale=1.0):
         import kafe2
 
         self.k2 = kafe2
         self.ftype, self.cost_id, self.model_key, self.v, self.n = ftype, cost, model, v, n
         self.minimizer, self.dea = minimizer, dea
-        self.val = V(v, n)
+        self.val = V(v, n, yscale=yscale)
         self.gen = gen  # (truth parameter list, noise scale): y data generated from the model plus fixed pseudo-noise
         fam, var = ref.cost_family(cost)
         self.poisson = (fam in ("nll", "nllr") and var == "poisson") or fam == "ga" if poisson_data is None else poisson_data
